@@ -158,10 +158,12 @@ fn secret_mode() {
 // ------------------------------------------------------------------------------------------- mpp
 #[derive(Default)]
 struct Obs {
-	adds: Vec<(usize, u64, u64, u32)>,
+	/// (channel, htlc id, amount, expiry, skimmed_fee_msat of the update_add_htlc)
+	adds: Vec<(usize, u64, u64, u32, u64)>,
 	fulfills: Vec<(usize, u64)>,
 	fails: Vec<(usize, u64)>,
-	claimable: Vec<(u64, i64)>,
+	/// (amount, claim deadline, counterparty_skimmed_fee_msat)
+	claimable: Vec<(u64, i64, u64)>,
 	claimed: Vec<(u64, Vec<(usize, u64, u32)>)>,
 }
 
@@ -172,6 +174,10 @@ fn idx_of(nodes: &[Node], pk: &PublicKey) -> Option<usize> {
 fn chan_idx(chans: &[ChannelId], c: &ChannelId) -> usize {
 	chans.iter().position(|x| x == c).unwrap_or(99)
 }
+
+/// what the forwarders (nodes 1 and 2, LSP-like) take off the next HTLC they intercept (negative:
+/// they forward more than the onion says)
+static PENDING_SKIM: std::sync::atomic::AtomicI64 = std::sync::atomic::AtomicI64::new(0);
 
 /// Delivers all pending messages; records what goes to / comes from the recipient (node 3).
 fn pump(nodes: &[Node], chans: &[ChannelId], obs: &mut Obs) {
@@ -197,7 +203,7 @@ fn pump(nodes: &[Node], chans: &[ChannelId], obs: &mut Obs) {
 					MessageSendEvent::UpdateHTLCs { updates, channel_id, .. } => {
 						for m in updates.update_add_htlcs.iter() {
 							if to == 3 {
-								obs.adds.push((chan_idx(chans, &channel_id), m.htlc_id, m.amount_msat, m.cltv_expiry));
+								obs.adds.push((chan_idx(chans, &channel_id), m.htlc_id, m.amount_msat, m.cltv_expiry, m.skimmed_fee_msat.unwrap_or(0)));
 							}
 							n.handle_update_add_htlc(from, m);
 						}
@@ -233,11 +239,21 @@ fn pump(nodes: &[Node], chans: &[ChannelId], obs: &mut Obs) {
 			if !evs.is_empty() {
 				progressed = true;
 			}
+			if i == 1 || i == 2 {
+				for e in evs.iter() {
+					if let Event::HTLCIntercepted { intercept_id, expected_outbound_amount_msat, .. } = e {
+						let skim = PENDING_SKIM.swap(0, std::sync::atomic::Ordering::SeqCst);
+						let amt = (*expected_outbound_amount_msat as i64 - skim).max(1) as u64;
+						let chan = if i == 1 { chans[2] } else { chans[3] };
+						let _ = nodes[i].node.forward_intercepted_htlc(*intercept_id, &chan, nodes[3].node.get_our_node_id(), amt);
+					}
+				}
+			}
 			if i == 3 {
 				for e in evs {
 					match e {
-						Event::PaymentClaimable { amount_msat, claim_deadline, .. } => {
-							obs.claimable.push((amount_msat, claim_deadline.map(|d| d as i64).unwrap_or(-1)));
+						Event::PaymentClaimable { amount_msat, claim_deadline, counterparty_skimmed_fee_msat, .. } => {
+							obs.claimable.push((amount_msat, claim_deadline.map(|d| d as i64).unwrap_or(-1), counterparty_skimmed_fee_msat));
 						},
 						Event::PaymentClaimed { amount_msat, htlcs, .. } => {
 							let mut hs: Vec<(usize, u64, u32)> = htlcs
@@ -265,10 +281,16 @@ fn jl<T: std::fmt::Display>(v: &[T]) -> String {
 	format!("[{}]", v.iter().map(|x| x.to_string()).collect::<Vec<_>>().join(","))
 }
 
-fn mpp_mode(style: u64) {
+fn mpp_mode(style: u64, underpay: bool) {
 	let chanmon_cfgs = create_chanmon_cfgs(4);
 	let node_cfgs = create_node_cfgs(4, &chanmon_cfgs);
-	let node_chanmgrs = create_node_chanmgrs(4, &node_cfgs, &[None, None, None, None]);
+	// nodes 1 and 2 forward like an LSP (they may skim a fee off intercepted HTLCs); the recipient's
+	// channels accept underpaying HTLCs or not
+	let mut lsp = test_default_channel_config();
+	lsp.htlc_interception_flags = lightning::util::config::HTLCInterceptionFlags::ToInterceptSCIDs as u8;
+	let mut recv_cfg = test_default_channel_config();
+	recv_cfg.channel_config.accept_underpaying_htlcs = underpay;
+	let node_chanmgrs = create_node_chanmgrs(4, &node_cfgs, &[None, Some(lsp.clone()), Some(lsp), Some(recv_cfg)]);
 	let nodes = create_network(4, &node_cfgs, &node_chanmgrs);
 	let cs = match style % 3 {
 		0 => ConnectStyle::BestBlockFirst,
@@ -290,6 +312,11 @@ fn mpp_mode(style: u64) {
 	let mut preimage = None;
 	let mut secret = PaymentSecret([0; 32]);
 	let mut part_no: u8 = 0;
+	// expiries of the HTLCs offered to the recipient so far, in order
+	let mut seen_cltv: Vec<u32> = Vec::new();
+	// the HTLCs the recipient holds, and those it held when it last reported PaymentClaimable
+	let mut held: std::collections::BTreeSet<(usize, u64)> = std::collections::BTreeSet::new();
+	let mut announced: Option<std::collections::BTreeSet<(usize, u64)>> = None;
 	let stdin = io::stdin();
 	let stdout = io::stdout();
 	let mut out = stdout.lock();
@@ -301,6 +328,10 @@ fn mpp_mode(style: u64) {
 		}
 		let mut obs = Obs::default();
 		let mut note = String::new();
+		// claim_funds for a set that was never announced by PaymentClaimable is API misuse (the library
+		// forgets the held HTLCs): such a claim command is skipped and reported as such
+		let claim_ok = !held.is_empty() && announced.as_ref().map(|a| held.is_subset(a)).unwrap_or(false);
+		let mut skipped = false;
 		let r = panic::catch_unwind(AssertUnwindSafe(|| match t[0] {
 			"invoice" => {
 				let (h, s, _) = nodes[3]
@@ -317,6 +348,7 @@ fn mpp_mode(style: u64) {
 				let total: u64 = t[3].parse().unwrap();
 				let extra: u32 = t[4].parse().unwrap();
 				let flipped = t[5] != "0";
+				let skim: Option<i64> = t.get(6).and_then(|x| x.parse().ok());
 				let pp = PaymentParameters::from_node_id(nodes[3].node.get_our_node_id(), TEST_FINAL_CLTV + extra)
 					.with_bolt11_features(nodes[3].node.bolt11_invoice_features())
 					.unwrap();
@@ -329,7 +361,7 @@ fn mpp_mode(style: u64) {
 					.find(|c| c.counterparty.node_id == nodes[via].node.get_our_node_id())
 					.unwrap();
 				let scorer = lightning::util::test_utils::TestScorer::new();
-				let route = lightning::routing::router::find_route(
+				let mut route = lightning::routing::router::find_route(
 					&nodes[0].node.get_our_node_id(),
 					&rp,
 					&nodes[0].network_graph,
@@ -340,6 +372,16 @@ fn mpp_mode(style: u64) {
 					&[7u8; 32],
 				)
 				.unwrap();
+				if let Some(sk) = skim {
+					// the last hop goes over the forwarder's intercept scid: it decides what it forwards
+					let scid = nodes[via].node.get_intercept_scid();
+					for path in route.paths.iter_mut() {
+						if let Some(last) = path.hops.last_mut() {
+							last.short_channel_id = scid;
+						}
+					}
+					PENDING_SKIM.store(sk, std::sync::atomic::Ordering::SeqCst);
+				}
 				let mut s = secret;
 				if flipped {
 					s.0[20] ^= 0x10;
@@ -355,13 +397,33 @@ fn mpp_mode(style: u64) {
 					connect_blocks(node, n);
 				}
 			},
+			"deadline" => {
+				// up to (d < 0: below; d >= 0: at or past) the fail-back height of the k-th HTLC offered
+				let k: usize = t[1].parse().unwrap();
+				let d: i64 = t[2].parse().unwrap();
+				let hfb: i64 = t[3].parse().unwrap();
+				if !seen_cltv.is_empty() {
+					let cltv = seen_cltv[k % seen_cltv.len()] as i64;
+					let target = cltv - hfb + d;
+					let cur = nodes[3].best_block_info().1 as i64;
+					if target > cur {
+						for node in nodes.iter() {
+							connect_blocks(node, (target - cur) as u32);
+						}
+					}
+				}
+			},
 			"claim" => {
-				if let Some(p) = preimage {
+				if !claim_ok {
+					skipped = true;
+				} else if let Some(p) = preimage {
 					nodes[3].node.claim_funds(p)
 				}
 			},
 			"claimknown" => {
-				if let Some(p) = preimage {
+				if !claim_ok {
+					skipped = true;
+				} else if let Some(p) = preimage {
 					nodes[3].node.claim_funds_with_known_custom_tlvs(p)
 				}
 			},
@@ -378,6 +440,19 @@ fn mpp_mode(style: u64) {
 			};
 		}
 		let r2 = panic::catch_unwind(AssertUnwindSafe(|| pump(&nodes, &chans, &mut obs)));
+		for a in obs.adds.iter() {
+			seen_cltv.push(a.3);
+			held.insert((a.0, a.1));
+		}
+		for f in obs.fails.iter().chain(obs.fulfills.iter()) {
+			held.remove(f);
+		}
+		if !obs.claimable.is_empty() {
+			announced = Some(held.clone());
+		}
+		if (t[0] == "claim" || t[0] == "claimknown" || t[0] == "failback") && !skipped {
+			announced = None;
+		}
 		if r2.is_err() && note.is_empty() {
 			note = "panic while delivering messages".to_string();
 		}
@@ -394,14 +469,15 @@ fn mpp_mode(style: u64) {
 			.collect();
 		writeln!(
 			out,
-			"{{\"c04\":1,\"cmd\":\"{}\",\"height\":{},\"adds\":{},\"fulfills\":{},\"fails\":{},\"claimable\":{},\"claimed\":{},\"panic\":\"{}\"}}",
+			"{{\"c04\":1,\"cmd\":\"{}\",\"height\":{},\"adds\":{},\"fulfills\":{},\"fails\":{},\"claimable\":{},\"claimed\":{},\"skipped\":{},\"panic\":\"{}\"}}",
 			line.trim(),
 			nodes[3].best_block_info().1,
-			jl(&obs.adds.iter().map(|(c, h, a, x)| format!("[{},{},{},{}]", c, h, a, x)).collect::<Vec<_>>()),
+			jl(&obs.adds.iter().map(|(c, h, a, x, sk)| format!("[{},{},{},{},{}]", c, h, a, x, sk)).collect::<Vec<_>>()),
 			jl(&obs.fulfills.iter().map(|(c, h)| format!("[{},{}]", c, h)).collect::<Vec<_>>()),
 			jl(&obs.fails.iter().map(|(c, h)| format!("[{},{}]", c, h)).collect::<Vec<_>>()),
-			jl(&obs.claimable.iter().map(|(a, d)| format!("[{},{}]", a, d)).collect::<Vec<_>>()),
+			jl(&obs.claimable.iter().map(|(a, d, sk)| format!("[{},{},{}]", a, d, sk)).collect::<Vec<_>>()),
 			jl(&claimed),
+			if skipped { 1 } else { 0 },
 			note.replace('"', "'").replace('\n', " ")
 		)
 		.unwrap();
@@ -415,7 +491,10 @@ fn main() {
 	let args: Vec<String> = std::env::args().collect();
 	match args.get(1).map(|s| s.as_str()) {
 		Some("secret") => secret_mode(),
-		Some("mpp") => mpp_mode(args.get(2).and_then(|s| s.parse().ok()).unwrap_or(0)),
-		_ => eprintln!("usage: h_inbound secret | h_inbound mpp <style>"),
+		Some("mpp") => mpp_mode(
+			args.get(2).and_then(|s| s.parse().ok()).unwrap_or(0),
+			args.get(3).map(|s| s == "1").unwrap_or(false),
+		),
+		_ => eprintln!("usage: h_inbound secret | h_inbound mpp <style> [<recipient accepts underpaying HTLCs 0|1>]"),
 	}
 }
